@@ -171,6 +171,25 @@ Section Pool.
   Definition upgrade (p : pool) (cs : list single_commit) : pool :=
     {| gossiped := gossiped p ++ filter (fun c => has cs c) (nongossiped p);
        nongossiped := filter (fun c => negb (has cs c)) (nongossiped p) |}.
+  (* Executer.broadcastCertificate: cleanup with the current BFT heights, selection sized by the validators of the tip,
+     publish, upgrade.  [tip] = height of the last block, [published] = whether conn.Publish succeeded. *)
+  Definition broadcast_certificate (e : env) (tip : N) (published : bool) (p : pool) : pool :=
+    match chain_at (e_chain e) (e_mhp e) with
+    | None => p
+    | Some fin =>
+        let p1 := cleanup p (cleanup_keep e (h_ac_height fin)) in
+        if Nat.eqb (pool_size p1) 0 then p1 else
+        match get_params e tip with
+        | None => p1
+        | Some prm =>
+            let (sel, p2) := select p1 (e_mhp e) (length (p_validators prm)) in
+            match sel with
+            | [] => p2
+            | _ => if published then upgrade p2 sel else p2
+            end
+        end
+    end.
+
 End Pool.
 
 Arguments gossiped {sigT} _.
@@ -190,6 +209,7 @@ Arguments cleanup {sigT} _ _.
 Arguments on_delete_block {sigT} _ _.
 Arguments select {sigT} _ _ _.
 Arguments upgrade {sigT} _ _.
+Arguments broadcast_certificate {sigT} _ _ _ _.
 Arguments sort_h {sigT} _.
 Arguments get_until {sigT} _ _.
 Arguments largest_with_limit {sigT} _ _ _.
